@@ -218,12 +218,25 @@ class P(Property):
             'unknown/grease, 0x41, malformed} cut by FIN/RESET at any byte, random chunking, plus 0..3 other streams; multi = <= 4 '
             'streams of random types (duplicates of critical streams, early closes) in random arrival interleavings; every case with '
             'a credit script (0..4 initial uni credits, G grants) and write budgets (unlimited, or 0 with small/large W grants), '
-            'grease on/off. non-trivial = distinct cases in which the build completed and at least one chunk of a peer stream was delivered')
+            'grease on/off; many = 5..12 peer streams with >= 4 silent (untyped, open) ones announced ahead of the control / unknown / '
+            'duplicate stream; burst = 20..100 control frames delivered before one single poll (last event), both roles; finish = '
+            'poll_finish of h3\'s own grease stream answering Pending (<id>:Z<n>) or the peer stopping it (<id>:S) while control frames '
+            'arrive; blocked = h3 starved of uni credit during build, or its own control stream out of budget after the header / in the '
+            'server\'s shutdown GOAWAY write, frames delivered meanwhile, grants at the end, then polls; after_none = server accept() '
+            'called again after it answered None, with further control frames in between. Liveness is demanded (spec columns must_fail / '
+            'stops / acted exact) only in settled states: phase run, h3 not write- or credit-blocked, last event a poll (two polls after '
+            '`ok none`); frames delivered while h3 is blocked in build or in shutdown(0) are delayed, not lost, and are checked after the '
+            'unblocking grant. non-trivial = distinct cases in which the build completed and at least one chunk of a peer stream was delivered')
     partial_note = ('C04_exactly_once_partial and the T1/T2 theorems carry the premise d_res <> RIndet (runs in which the model\'s '
                     'interval arithmetic for fastrand-dependent write lengths is indeterminate; never produced by the generators); '
                     'T3 is stated as two composing theorems (rule table over the frames taken; frames taken = RFC 7.1 segmentation of the '
                     'bytes via C02\'s refinement) rather than one; the byte-level theorems use C02\'s settings_verdict for SETTINGS '
-                    'contents; "first violation in processing order" is not claimed when several streams violate')
+                    'contents; "first violation in processing order" is not claimed when several streams violate; the liveness theorems '
+                    '(C04_poll_settles, C04_poll_complete) exclude a poll spent in the server\'s shutdown(0) GOAWAY write and the build phase '
+                    '(there frames are delayed until the write/credit is granted) and conclude "does not stay running", i.e. error or exit '
+                    'from the model\'s domain (panic/outside/indeterminate), not "error" alone; request (bidi) streams are not modelled; '
+                    'tolerances: push streams MAY be ignored or refused (server 259 / client 264), client CANCEL_PUSH {261,264}, 0x41 on the '
+                    'control stream {261,262}, H3_CLOSED_CRITICAL_STREAM is acceptable for any control stream that has ended')
     trusted_extra = [
         'SimQuic transport and executor (harness/src/simquic.rs); explicit polls only (no wakers)',
         'frame layer model Model/FrameStream.v and spec Spec/Frames.v are C02\'s; SETTINGS contents Model/Settings.v, Spec/RFC9114Settings.v are C13\'s',
